@@ -401,6 +401,11 @@ func readString(buf *bytes.Buffer) (string, error) { // nolint:interfacer
 	if strlen == -1 {
 		return "", nil
 	}
+	// The length comes from the wire: a negative size or one larger than what is left in the buffer cannot be
+	// satisfied, so do not allocate for it
+	if strlen < 0 || int(strlen) > buf.Len() {
+		return "", errors.New("string underflow")
+	}
 
 	strbytes := make([]byte, strlen)
 	n, err := buf.Read(strbytes)
@@ -763,8 +768,21 @@ func decodeMemberAssignmentV0(buf *bytes.Buffer) (map[string][]int32, string) {
 		return topics, "assignment_topic_count"
 	}
 
+	if numTopics < -1 {
+		return topics, "assignment_topic_count"
+	}
+
+	// The count comes from the wire. Every topic entry takes at least 6 bytes (name length and partition count), so
+	// use it as a size hint only as far as the remaining bytes could hold that many entries
 	topicCount := int(numTopics)
-	topics = make(map[string][]int32, numTopics)
+	sizeHint := topicCount
+	if maxTopics := buf.Len() / 6; sizeHint > maxTopics {
+		sizeHint = maxTopics
+	}
+	if sizeHint < 0 {
+		sizeHint = 0
+	}
+	topics = make(map[string][]int32, sizeHint)
 	for i := 0; i < topicCount; i++ {
 		topicName, err := readString(buf)
 		if err != nil {
@@ -774,6 +792,13 @@ func decodeMemberAssignmentV0(buf *bytes.Buffer) (map[string][]int32, string) {
 		err = binary.Read(buf, binary.BigEndian, &numPartitions)
 		if err != nil {
 			return topics, "assignment_partition_count"
+		}
+		if numPartitions < 0 {
+			return topics, "assignment_partition_count"
+		}
+		// Every partition ID takes 4 bytes: if the buffer is too short for all of them, at least one is missing
+		if int(numPartitions) > buf.Len()/4 {
+			return topics, "assignment_partition_id"
 		}
 		partitionCount := int(numPartitions)
 		topics[topicName] = make([]int32, numPartitions)
